@@ -260,11 +260,10 @@ def expandSeg (env : Env) : Nat → Str → Str → Outcome Str
   | _ + 1, [], acc => .ok acc
   | f + 1, cs, acc =>
     let lit := cs.takeWhile (· ≠ '$')
-    let rest := (cs.dropWhile (· ≠ '$')).drop 1
     let acc := acc ++ lit
-    match rest with
+    match cs.dropWhile (· ≠ '$') with
     | [] => .ok acc
-    | _ =>
+    | _ :: rest =>
       let rest := if rest.head? = some '{' then rest.tail else rest
       let var := rest.takeWhile isVarChar
       let rest := rest.dropWhile isVarChar
